@@ -621,6 +621,28 @@ example : (hostRun cfgEx fsEx 5 { dir := [], exportTop := true, body :=
       (fun r => (r.1, lookup 60 r.2.exports.data, lookup 61 r.2.exports.data))
     = some (none, some (.int 2), some (.int 3)) := by decide
 
+/-- compound assignments count: with export_top_level_ids, after `k op= b` at the top level the exports
+entry `k` holds the new value — whether `k` is a local assigned earlier in the same script or is read
+from the exports of an earlier script -/
+theorem top_level_compound_export_final (cfg : Cfg) (k : Name) (op : COp) (b a : Int) (fr : Frame) (s : St)
+    (het : fr.exportTop = true) (ha : readId cfg fr s k = some (.int a)) :
+    ∃ fr' s', compoundStep cfg k op (.lit b) fr s = (none, fr', s')
+      ∧ lookup k s'.exports.data = some (.int (op.apply a b))
+      ∧ ((lookup k fr.locals).isSome = true → lookup k fr'.locals = some (.int (op.apply a b))) := by
+  refine ⟨_, _, by simp only [compoundStep, evalRhs, Option.map, ha]; rfl, ?_, ?_⟩
+  · simp [exportIf, het, setData, lookup_insert_self]
+  · intro hl
+    simp [hl, Modules.bind, lookup_insert_self]
+
+-- `k60 = 1; k60 += 2; k60 *= 10` in one script, then `k60 -= 5` in the next one, a loop and an `if`
+example : (finalSt cfgEx fsEx 5
+      [{ dir := [], exportTop := true, body :=
+          [.act (.assign 60 1), .act (.compound 60 .add (.lit 2)), .act (.compound 60 .mul (.lit 10))] },
+       { dir := [], exportTop := true, body :=
+          [.act (.compound 60 .sub (.lit 5)), .act (.loopCompound 3 60 .add (.lit 1)), .act (.condAssign 0 61 7)] }]
+      init).map (fun s => (lookup 60 s.exports.data, lookup 61 s.exports.data))
+    = some (some (.int 28), some (.int 7)) := by decide +kernel
+
 /-- What the code does for *import* bindings under export_top_level_ids: the imported value is exported
 under `Item.exportKey?`. Id items: the code recorded in F-C18-1 (`cfg.exportAlias = false`) used the
 name of the imported item even when the statement binds an alias. String items (`import 'm' as n`,
